@@ -34,9 +34,9 @@ import "math/big"
 //@   results v, err
 //@   ensures[C14] len(buf) == 0 ==> err != nil
 //@   ensures[C14] len(buf) == 1 ==> err == nil && v == nil
-//@   ensures[C14] len(buf) == 2 && seq(buf)[1] == 0 ==> err == nil && v != nil && fresh(v) && bigval(v) == 0
+//@   ensures[C13,C14] len(buf) == 2 && seq(buf)[1] == 0 ==> err == nil && v != nil && fresh(v) && bigval(v) == 0
 //@   ensures[C14] len(buf) >= 2 && seq(buf)[0] > 1 && !(len(buf) == 2 && seq(buf)[1] == 0) ==> err != nil && v == nil
-//@   ensures[C14] len(buf) >= 2 && seq(buf)[0] <= 1 ==> err == nil && v != nil && fresh(v)
+//@   ensures[C13,C14] len(buf) >= 2 && seq(buf)[0] <= 1 ==> err == nil && v != nil && fresh(v)
 //@   ensures[C14] len(buf) >= 2 && seq(buf)[0] <= 1 && !(len(buf) == 2 && seq(buf)[1] == 0) ==> bigval(v) == ite(seq(buf)[0] == 1, 0 - beval(seq(buf)[1:len(buf)]), beval(seq(buf)[1:len(buf)]))
 //@   modifies new(big.Int)
 
